@@ -28,7 +28,7 @@ class C05(Engine):
     name = "read-fault-sim"
     level = "fault_enumeration"
     expected_kinds = {"prefix_tok", "prefix_chr", "tok_del", "tok_rep", "tok_ins", "tok_swap", "edit_pair", "flip",
-                      "non_ascii", "bad_utf8", "lex_exhaustive", "lex_seeded", "lex_long_run", "pipeline_long_run", "pipeline_deep_nest", "cli_level", "prefix_line", "tok_rep_kw"}
+                      "non_ascii", "bad_utf8", "lex_exhaustive", "lex_seeded", "lex_long_run", "pipeline_long_run", "pipeline_deep_nest", "cli_level", "prefix_line", "tok_rep_kw", "line_tail_lost"}
     rule_text = ("Every workload program (repository samples, generated conforming/violating files, literal families) x both file "
                  "types x every token boundary (prefix_tok) and every single-token deletion (tok_del) is executed, plus the middle of "
                  "every multi-character token (prefix_chr), seeded token replace/insert/swap/pairs, byte flips, non-ASCII and invalid "
@@ -96,6 +96,12 @@ class C05(Engine):
                     if k == n and cut == L and nm == f["name"]:
                         pass   # the undamaged file itself is part of the enumeration (k = n)
                     yield idx, self.derived(b, nm, [[cut, L, ""]], f"prefix_tok({k})", "prefix_tok")
+                    idx += 1
+            # the tail of a line lost: prefix at every token boundary inside a line, newline-terminated
+            for k in range(0, n, step):
+                cut = spans[k][0]
+                if cut > 0 and content[cut - 1] != "\n":
+                    yield idx, self.derived(b, names[k % 2], [[cut, L, "\n"]], f"line_tail_lost({k})", "line_tail_lost")
                     idx += 1
             # delete every token, own type (other type sampled)
             for k in range(0, n, step):
